@@ -28,7 +28,7 @@ class Violation(Exception):
 class ChoiceSource:
     """Answers choice points from a script; records every point met."""
 
-    __slots__ = ("script", "expect", "points", "pos", "dev", "counts")
+    __slots__ = ("script", "expect", "points", "pos", "dev", "counts", "_nrand")
 
     def __init__(self, script=(), expect=None, dev=None):
         self.script = list(script)
@@ -37,6 +37,7 @@ class ChoiceSource:
         self.pos = 0
         self.dev = dev  # E-dev: dict position -> answer (overrides default)
         self.counts = {}
+        self._nrand = 0
 
     def choose(self, kind, n, default=0):
         """Return an index in range(n). `default` is used beyond the script (E-dev base)."""
